@@ -25,6 +25,8 @@ var mathNames = map[ir.MathFunction]string{
 	ir.MathCountTrailingZeros: "countTrailingZeros", ir.MathCountLeadingZeros: "countLeadingZeros", ir.MathCountOneBits: "countOneBits",
 	ir.MathReverseBits: "reverseBits", ir.MathFirstTrailingBit: "firstTrailingBit", ir.MathFirstLeadingBit: "firstLeadingBit",
 	ir.MathExtractBits: "extractBits", ir.MathInsertBits: "insertBits", ir.MathSign: "sign",
+	ir.MathPack4xI8: "pack4xI8", ir.MathPack4xU8: "pack4xU8", ir.MathPack4xI8Clamp: "pack4xI8Clamp", ir.MathPack4xU8Clamp: "pack4xU8Clamp",
+	ir.MathUnpack4xI8: "unpack4xI8", ir.MathUnpack4xU8: "unpack4xU8",
 	// typed only (C09: result types); the IR interpreter has no value for them
 	ir.MathLength: "length", ir.MathDistance: "distance", ir.MathDeterminant: "determinant", ir.MathTranspose: "transpose",
 	ir.MathNormalize: "normalize", ir.MathCross: "cross", ir.MathSqrt: "sqrt", ir.MathInverseSqrt: "inverseSqrt",
